@@ -7,8 +7,9 @@ the host file is read with plain Python I/O after every CLOSE.
 
   write classes : WRITE #n items (strings / integers / singles / doubles) in one OUTPUT session and
                   0-2 APPEND sessions, then OPEN FOR INPUT and INPUT #n in a different grouping
-  lines classes : PRINT #n of lines, then LINE INPUT #n (direct statements or a stored
-                  WHILE NOT EOF loop)
+  lines classes : PRINT #n of lines - single items or assembled from several items (';' / ',' separators, ';' at
+                  the end of a statement, totals around and far beyond 255, with and without WIDTH #n) - then
+                  LINE INPUT #n (direct statements or a stored WHILE NOT EOF loop)
   configurations: default, soft_linefeed=True (CR / LF inside quoted fields), textfile_encoding='utf-8'
 """
 import os
@@ -25,7 +26,8 @@ META = {
         'Runtime oracle on a native mount: after WRITE # the host file must be the quoted/comma/CRLF image of the items '
         '(strings exact; number texts are extracted), INPUT # must return every string unchanged and every number within '
         'one unit in the last place of the exact decimal value of its written text (exact for integers) and equal to what '
-        'the interpreter\'s own VAL gives for that text; PRINT # lines must come back unchanged through LINE INPUT #; '
+        'the interpreter\'s own VAL gives for that text; PRINT # lines - also lines assembled from several items with ; and , and across statements, totals 254..260, 300, 600 and beyond, with and without WIDTH #n - '
+        'must give exactly the model image in the host file and come back through LINE INPUT # (in 255-character pieces when longer); '
         'EOF(n) must be 0 before every item and -1 after the last one (also for empty files); LOF(n) must equal '
         'os.path.getsize for INPUT/APPEND opens and the final-image offset of the last statement while writing; an APPEND '
         'session must leave the previous content as a byte-for-byte prefix. Directed boundary core (every allowed byte alone / '
@@ -44,7 +46,7 @@ META = {
              'except in the directed core)'),
     'design_ref': 'DESIGN.md section 4 C24',
     'assumptions': ['host file I/O through Python is correct', 'WRITE# image = quoted strings, comma separators, CR LF (GW-BASIC manual)'],
-    'require_counters': {'any': ['eof_checks', 'appended_sessions', 'strings_read', 'numbers_read', 'lines_read', 'lof_checks']},
+    'require_counters': {'any': ['joined_lines_longer_than_255', 'lines_continued_across_statements', 'sessions_with_explicit_width', 'long_line_pieces_read', 'eof_checks', 'appended_sessions', 'strings_read', 'numbers_read', 'lines_read', 'lof_checks']},
     'timeout': {'quick': 900, 'thorough': 10800},
 }
 
@@ -175,6 +177,53 @@ def gen_write_history(rng, cfg):
     }
 
 
+PRINTABLE = bytes(range(0x20, 0x7f))
+
+
+def _split_total(rng, total, nitems, maxitem=255):
+    """nitems lengths (each <= maxitem) adding up to total."""
+    nitems = max(nitems, -(-total // maxitem))
+    cuts = sorted(rng.randint(0, total) for _ in range(nitems - 1))
+    lens = [b - a for a, b in zip([0] + cuts, cuts + [total])]
+    while max(lens) > maxitem:
+        i = lens.index(max(lens))
+        j = lens.index(min(lens))
+        move = lens[i] - maxitem
+        lens[i] -= move
+        lens[j] += move
+    return lens
+
+
+def _joined_build(rng, alphabet, width):
+    """One logical line assembled from several PRINT# items (';' / ',' separators, ';' at the end of a statement)."""
+    if width:
+        nitems = rng.randint(2, 6)
+        lens = [rng.choice([0, 1, width // 3, width // 2, width - 1, width, rng.randint(0, width)]) for _ in range(nitems)]
+        alphabet = PRINTABLE
+        commas = False
+    else:
+        total = rng.choice([254, 255, 256, 257, 258, 259, 260, 300, 510, 511, 600, rng.randint(2, 253), rng.randint(2, 253), rng.randint(256, 700)])
+        commas = total < 150 and rng.random() < 0.5
+        if commas:
+            alphabet = PRINTABLE
+        lens = _split_total(rng, total, rng.randint(2, 5))
+    items = [bytes(rng.choice(alphabet) for _ in range(k)) for k in lens]
+    build, stmt = [], []
+    for j, it in enumerate(items):
+        last = j == len(items) - 1
+        if last:
+            stmt.append([it, ''])
+            build.append(stmt)
+        elif rng.random() < 0.3:
+            # the statement ends in ';' and the line goes on in the next PRINT#
+            stmt.append([it, ';'])
+            build.append(stmt)
+            stmt = []
+        else:
+            stmt.append([it, ',' if commas and rng.random() < 0.5 else ';'])
+    return build
+
+
 def gen_lines_history(rng, cfg):
     allow255 = rng.random() < 0.1
     nsess = rng.choice([1, 1, 2, 3])
@@ -182,17 +231,29 @@ def gen_lines_history(rng, cfg):
     prev255 = False
     for si in range(nsess):
         nl = rng.choice([0, 1, 2, 3, 5, 8, 12])
+        width = rng.choice([20, 40, 64, 80, 100, 120]) if rng.random() < 0.15 else None
         lines = []
         for _ in range(nl):
-            l = _rand_string(rng, M.ALPHABET_LINE, allow255)
-            if rng.random() < 0.15:
-                l = (b'"' + l)[:254]
-            if not l and prev255:
+            if rng.random() < (0.6 if width else 0.3):
+                l = _joined_build(rng, M.ALPHABET_LINE, width)
+            else:
+                l = _rand_string(rng, PRINTABLE if width else M.ALPHABET_LINE, allow255)
+                if rng.random() < 0.15:
+                    l = (b'"' + l)[:254]
+                if width:
+                    l = l[:width]
+            # keep literal / deviation distinguishable: no empty physical line right after one ending on a 255-character piece
+            phys = M.print_image([l], width).split(b'\r\n')[:-1]
+            if any(not q for q in phys) and (prev255 or any(q and len(q) % 255 == 0 for q in phys)):
                 l = b'x'
-            prev255 = len(l) == 255
+                phys = [l]
+            prev255 = bool(phys[-1]) and len(phys[-1]) % 255 == 0
             lines.append(l)
-        sessions.append({'mode': 'O' if si == 0 else 'A', 'lines': lines,
-                         'lof_at': sorted(set(rng.randrange(nl) for _ in range(2))) if nl else []})
+        sess = {'mode': 'O' if si == 0 else 'A', 'lines': lines,
+                'lof_at': sorted(set(rng.randrange(nl) for _ in range(2))) if nl else []}
+        if width:
+            sess['width'] = width
+        sessions.append(sess)
     return {
         'cls': 'lines', 'cfg': cfg, 'name': _rand_name(rng), 'wnum': rng.randint(1, 3), 'rnum': rng.randint(1, 3),
         'sessions': sessions, 'loop': rng.random() < 0.3,
@@ -438,7 +499,7 @@ def run_lines_history(box, case, res):
     wn, rn = case['wnum'], case['rnum']
     cfg = case['cfg']
     content = None
-    all_lines = []
+    model_image = b''
     for si, sess in enumerate(case['sessions']):
         mode = b'OUTPUT' if sess['mode'] == 'O' else b'APPEND'
         _ok(box, res, b'OPEN "%s" FOR %s AS %d' % (name, mode, wn), case, 'open-' + mode.decode().lower())
@@ -452,19 +513,31 @@ def run_lines_history(box, case, res):
                     res.violation('lof:append-open', 'LOF=%r after OPEN FOR APPEND, host file has %d bytes' % (lof, size), case)
                     raise Stop()
         else:
-            content, all_lines = None, []
+            content, model_image = None, b''
         lofs = {}
+        width = sess.get('width')
+        if width:
+            _ok(box, res, b'WIDTH #%d, %d' % (wn, width), case, 'width')
+            res.count('sessions_with_explicit_width')
         for k, l in enumerate(sess['lines']):
-            if not l and k % 2:
-                _ok(box, res, b'PRINT #%d,' % wn, case, 'print')
-            elif len(l) > 1 and k % 3 == 0 and len(l) <= 250:
-                cut = len(l) // 2
-                box.set('P$', l[:cut])
-                box.set('Q$', l[cut:])
-                _ok(box, res, b'PRINT #%d, P$; Q$' % wn, case, 'print')
-            else:
-                box.set('P$', l)
-                _ok(box, res, b'PRINT #%d, P$' % wn, case, 'print')
+            build = M.as_build(l)
+            total = sum(len(it) for st in build for it, _ in st)
+            nitems = sum(len(st) for st in build)
+            if nitems > 1:
+                res.count('lines_built_from_several_items')
+                if total > 255:
+                    res.count('joined_lines_longer_than_255')
+                if len(build) > 1:
+                    res.count('lines_continued_across_statements')
+            for st in build:
+                if len(st) == 1 and not st[0][0] and st[0][1] == '' and k % 2:
+                    _ok(box, res, b'PRINT #%d,' % wn, case, 'print')
+                    continue
+                parts = []
+                for j, (item, sep) in enumerate(st):
+                    box.set('V%d$' % j, item)
+                    parts.append(b'V%d$' % j + sep.encode())
+                _ok(box, res, b'PRINT #%d, %s' % (wn, b''.join(parts)), case, 'print')
             if k in sess['lof_at'] and cfg != 'utf8':
                 lofs[k] = _int(box, b'LOF(%d)' % wn)
         _ok(box, res, b'CLOSE #%d' % wn, case, 'close')
@@ -472,7 +545,8 @@ def run_lines_history(box, case, res):
         if raw is None:
             res.violation('write:host-file-missing', 'no host file %r after CLOSE' % case['name'], case)
             raise Stop()
-        all_lines.extend(sess['lines'])
+        want_added = M.print_image(sess['lines'], width)
+        model_image += want_added
         if cfg == 'utf8':
             continue
         new_content, had_eof = M.strip_eof(raw)
@@ -482,27 +556,36 @@ def run_lines_history(box, case, res):
                           'after an APPEND session the previous %d content bytes are no longer a prefix of the file' % len(prev), case)
             raise Stop()
         added = new_content[len(prev):]
-        if added != M.lines_image(sess['lines']):
-            res.violation('print:file-image', 'bytes added by PRINT# session %d are not line+CRLF for each line: %r...' % (si, added[:60]), case)
+        if added != want_added:
+            d = next((i for i in range(min(len(added), len(want_added))) if added[i] != want_added[i]), min(len(added), len(want_added)))
+            joined = any(sum(len(st) for st in M.as_build(l)) > 1 for l in sess['lines'])
+            res.violation('print:file-image' + (':lines-built-from-several-items' if joined else '') + (':explicit-width' if width else ''),
+                          'bytes added by PRINT# session %d differ from the model image at offset %d (%d vs %d bytes): %r / %r'
+                          % (si, d, len(added), len(want_added), added[max(0, d - 10):d + 10], want_added[max(0, d - 10):d + 10]), case)
             raise Stop()
-        off = len(prev)
-        for k, l in enumerate(sess['lines']):
-            off += len(l) + 2
-            if k in lofs:
-                res.count('lof_checks')
-                if lofs[k] != off:
-                    res.violation('lof:while-writing', 'LOF=%r after line %d of session %d; image has %d bytes up to there' % (lofs[k], k, si, off), case)
-                    raise Stop()
+        for k in lofs:
+            off = len(prev) + len(M.print_image(sess['lines'][:k + 1], width))
+            res.count('lof_checks')
+            if lofs[k] != off:
+                res.violation('lof:while-writing', 'LOF=%r after line %d of session %d; image has %d bytes up to there' % (lofs[k], k, si, off), case)
+                raise Stop()
         content = new_content
     # ---- read phase ------------------------------------------------------------------------
     # Literal statement: every line comes back, EOF right after the last one.
     # Recorded deviation (GW-BASIC does the same, tests/basic/unsorted/LongLineInputCR): LINE INPUT# stops after
     # 255 characters and leaves the line terminator unread, so ONE empty line follows every 255-character line.
     # Exactly one of the two is accepted per 255-character line; anything else is a violation of its own.
+    # A physical line longer than 255 characters (built from several PRINT# items) comes back in pieces of 255
+    # characters (GW-BASIC line buffer, tests/basic/unsorted/LongLineInput); only the piece that ENDS a line can
+    # leave a terminator unread.
+    units = M.read_units(model_image)
+    all_lines = [u[0] for u in units]
+    ends255 = [u[1] and len(u[0]) == 255 for u in units]
+    res.count('long_line_pieces_read', sum(1 for u in units if not u[1]))
     n = len(all_lines)
     if case.get('loop'):
         res.count('loop_reads')
-        n255 = sum(1 for l in all_lines if len(l) == 255)
+        n255 = sum(1 for f in ends255 if f)
         prog = [
             b'10 DIM L$(%d)' % (n + n255 + 3),
             b'20 OPEN "%s" FOR INPUT AS %d' % (name, rn),
@@ -521,9 +604,9 @@ def run_lines_history(box, case, res):
         got_n = box.get('N%')
         res.count('eof_checks', got_n + 1)
         dev_lines = []
-        for l in all_lines:
+        for l, f in zip(all_lines, ends255):
             dev_lines.append(l)
-            if len(l) == 255:
+            if f:
                 dev_lines.append(b'')
         if got_n == n or not n255:
             want, dev = all_lines, False
@@ -539,7 +622,7 @@ def run_lines_history(box, case, res):
                 res.violation('line-input:line-differs', 'line %d: wrote %r (len %d), read %r (len %d)' % (k, l[:40], len(l), got[:40], len(got)), case)
                 raise Stop()
         if dev:
-            res.violation(DEV_LINE255, 'WHILE NOT EOF loop read %d lines for %d written: one empty line after each of the %d lines of 255 characters'
+            res.violation(DEV_LINE255, 'WHILE NOT EOF loop read %d lines for %d written: one empty line after each of the %d lines ending on a 255-character piece'
                           % (got_n, n, n255), case)
         res.count('eof_true_seen')
         res.count('files')
@@ -572,12 +655,12 @@ def run_lines_history(box, case, res):
     for k, l in enumerate(all_lines):
         got = pending if pending is not None else read_line(k)
         pending = None
-        if len(l) == 255:
+        if ends255[k]:
             res.count('lines_255_read')
         if got != l:
             res.violation('line-input:line-differs', 'line %d: wrote %r (len %d), read %r (len %d)' % (k, l[:40], len(l), got[:40], len(got)), case)
             raise Stop()
-        if len(l) == 255:
+        if ends255[k]:
             if k + 1 < n:
                 nxt = read_line(k + 1)
                 if nxt == b'' and all_lines[k + 1] != b'':
@@ -674,6 +757,38 @@ def directed_cases(part):
             cases.append(lcase(cfg, [('O', []), ('A', [b'x'])]))
             cases.append(lcase(cfg, [('O', [b''])]))
             cases.append(lcase(cfg, [('O', [b'', b''])], loop=True))
+        # lines assembled from several PRINT# items: total lengths around and far beyond 255, ';' inside a statement and
+        # at the end of a statement, ',' zones, with and without WIDTH #n
+        def joined(total, nitems, split_at=(), sep=';'):
+            lens = [total // nitems + (1 if i < total % nitems else 0) for i in range(nitems)]
+            items = [bytes([0x41 + i]) * k for i, k in enumerate(lens)]
+            build, stmt = [], []
+            for j, it in enumerate(items):
+                if j == len(items) - 1:
+                    stmt.append([it, ''])
+                    build.append(stmt)
+                elif j in split_at:
+                    stmt.append([it, ';'])
+                    build.append(stmt)
+                    stmt = []
+                else:
+                    stmt.append([it, sep])
+            return build
+        for cfg in ('default', 'softlf', 'utf8'):
+            for total in (253, 254, 255, 256, 257, 258, 259, 260, 280, 300, 509, 510, 511, 600, 765):
+                nit = max(2, -(-total // 250))
+                cases.append({'cls': 'lines', 'cfg': cfg, 'name': 'J.TXT', 'wnum': 1, 'rnum': 2, 'loop': total % 2 == 0,
+                              'sessions': [{'mode': 'O', 'lof_at': [0, 1, 2],
+                                            'lines': [joined(total, nit), b'after', joined(total, nit + 1, split_at=(0,)), b'z']}]})
+            cases.append({'cls': 'lines', 'cfg': cfg, 'name': 'J.TXT', 'wnum': 1, 'rnum': 2, 'loop': False,
+                          'sessions': [{'mode': 'O', 'lof_at': [0], 'lines': [joined(280, 3)]},
+                                       {'mode': 'A', 'lof_at': [0, 1], 'lines': [joined(600, 4, split_at=(1, 2)), joined(40, 4, sep=','), b'end']}]})
+        for width in (20, 40, 80, 255):
+            for total in (width - 1, width, width + 1, 2 * width, 3 * width + 5):
+                cases.append({'cls': 'lines', 'cfg': 'default', 'name': 'W.TXT', 'wnum': 1, 'rnum': 1, 'loop': False,
+                              'sessions': [{'mode': 'O', 'lof_at': [0, 1], 'width': width,
+                                            'lines': [joined(min(total, 700), max(2, -(-total // width) + 1)), b'q',
+                                                      joined(min(total, 700), 4, split_at=(0, 2))]}]})
         alph = M.ALPHABET_LINE
         for i in range(0, len(alph), 12):
             chunk = alph[i:i + 12]
